@@ -79,13 +79,14 @@ def _raws_of(a):
     info = getattr(a, "setinfo", None)
     if info is not None:
         return info.raws
-    key = id(a.store)
+    # one membership predicate per array CONTENT: the key holds the element function, which in-place writes replace
+    key = (id(a.store), id(a.store.get), id(a.tmap) if a.tmap is not None else 0)
     reg = CTX.ghost.setdefault("raw_by_store", {})
     if key not in reg:
         probe = sym._elem_num(a._snapshot()(sym._fresh_idx(a.axes, "p")))
         if not CTX.engine.entails(z3.Or(bz(probe.isfin()), bz(probe.isnan_raw())), timeout_ms=2000):
             raise Unsupported("set routines are modelled for arrays of finite or NaN values only")
-        reg[key] = (a, Raw(a))       # keep the array alive: ids of dead objects are reused
+        reg[key] = (a, Raw(a), a.store.get, a.tmap)       # keep the objects alive: ids of dead objects are reused
     return [reg[key][1]]
 
 
